@@ -340,3 +340,205 @@ Fixpoint c19_history (ops : list c19_fop) (c : nat) : list c19_fev :=
   | S c', o :: ops' => C19_EvOp o :: c19_history ops' c'
   | S _, [] => []
   end.
+
+(* ------------------------------------------------------------------------------------------ *)
+(** * Part 3: several MPIFuture objects of one process and the requests they have posted in MPI
+
+   Parts 1-2 follow ONE future whose request nobody else can touch.  Here a process owns a vector of future variables
+   ("slots") and MPI owns the multiset of posted requests (the pool).  Special members create, hand over and release
+   requests:
+     ~MPIFuture()                 if(req_ != MPI_REQUEST_NULL){ MPI_Cancel(&req_); MPI_Request_free(&req_); }
+     MPIFuture(MPIFuture&& f)     req_(NULL), data_(move(f.data_)); swap(req_, f.req_)
+     operator=(MPIFuture&& f)     swap(req_, f.req_); swap(data_, f.data_); ...  -- the PREVIOUS operation of the target ends up
+                                  in f and is withdrawn when f (the temporary returned by the non-blocking call) is destroyed
+     Dune::Future<T>              unique_ptr: assignment destroys the MPIFuture held before
+   A receive buffer is identified with the operation that was started on it (buffer id = handle id). *)
+Inductive c19_xst := C19_XPending | C19_XDone.     (* posted and not matched | complete in MPI (message in the buffer) *)
+Record c19_xreq := C19_mkxreq { c19_xh : nat; c19_xs : c19_xst; c19_xsnd : bool }.
+Record c19_xfut := C19_mkxfut { c19_xrq : option nat;      (* req_  (None = MPI_REQUEST_NULL) *)
+                                c19_xdt : option nat }.    (* data_ (buffer id; None = no buffer: invalid) *)
+Inductive c19_xslot := C19_SNone                 (* no object (not yet constructed / destroyed) *)
+                     | C19_SEmpty                (* Dune::Future<T> without a future object *)
+                     | C19_SObj (f : c19_xfut).
+Record c19_xstate := C19_mkxstate { c19_xpool : list c19_xreq;         (* requests posted in MPI, in posting order *)
+                                    c19_xslots : list c19_xslot;
+                                    c19_xnext : nat;                   (* next handle *)
+                                    c19_xstore : list (nat * nat);     (* buffer contents, latest binding first *)
+                                    c19_xunexp : list nat }.           (* messages that arrived before a receive was posted *)
+Inductive c19_xop :=
+| C19_XPost (snd : bool) (v : nat) (s : nat)   (* slot_s = comm.irecv(buf, ...)  /  comm.isend(v, ...)  (construction if the slot has no object) *)
+| C19_XMoveCtor (s t : nat)                    (* F slot_t(std::move(slot_s)) *)
+| C19_XAssign (s t : nat)                      (* slot_t = std::move(slot_s) *)
+| C19_XDestroy (s : nat)
+| C19_XValid (s : nat) | C19_XReady (s : nat) | C19_XWait (s : nat) | C19_XGet (s : nat)
+| C19_XSend (v : nat).                         (* network: the partner's next message v arrives *)
+Inductive c19_xres := C19_XRBool (b : bool) | C19_XRUnit | C19_XRData (v : nat) | C19_XRInvalid
+                    | C19_XRBlocks       (* MPI_Wait on a request nothing will complete: the script is stuck *)
+                    | C19_XRDangling     (* req_ names a request MPI no longer knows *)
+                    | C19_XRSkip.        (* ill-formed step (no such object) *)
+
+Definition c19_xremove (h : nat) (p : list c19_xreq) : list c19_xreq := filter (fun r => negb (c19_xh r =? h)) p.
+Definition c19_xfind (h : nat) (p : list c19_xreq) : option c19_xreq := find (fun r => c19_xh r =? h) p.
+(* an arriving message is matched with the first pending receive in posting order (MPI non-overtaking rule) *)
+Fixpoint c19_xdeliver (p : list c19_xreq) : option (nat * list c19_xreq) :=
+  match p with
+  | [] => None
+  | r :: p' => match c19_xs r, c19_xsnd r with
+               | C19_XPending, false => Some (c19_xh r, C19_mkxreq (c19_xh r) C19_XDone false :: p')
+               | _, _ => match c19_xdeliver p' with Some (b, q) => Some (b, r :: q) | None => None end
+               end
+  end.
+Fixpoint c19_xlookup (b : nat) (m : list (nat * nat)) : nat :=
+  match m with [] => 0 | (k, v) :: m' => if k =? b then v else c19_xlookup b m' end.
+
+(* MPI_Cancel + MPI_Request_free / completion observed by MPI_Wait, MPI_Test: MPI forgets the request *)
+Definition c19_xdtor (f : c19_xfut) (p : list c19_xreq) : list c19_xreq :=
+  match c19_xrq f with Some h => c19_xremove h p | None => p end.
+Definition c19_xslot_dtor (x : c19_xslot) (p : list c19_xreq) : list c19_xreq :=
+  match x with C19_SObj f => c19_xdtor f p | _ => p end.
+(* operator=(MPIFuture&&): returns (target, source) afterwards.  sw = true: the code (swap);  sw = false: a "take over"
+   variant that leaves the source without request - and forgets the target's previous request *)
+Definition c19_xassign (sw : bool) (k : c19_bkind) (tgt src : c19_xfut) : c19_xfut * c19_xfut :=
+  if sw then (src, tgt) else (src, C19_mkxfut None (c19_buf_after_move c19_cfg_fixed k (c19_xdt src))).
+Definition c19_xmovector (k : c19_bkind) (src : c19_xfut) : c19_xfut * c19_xfut :=
+  (C19_mkxfut (c19_xrq src) (c19_xdt src), C19_mkxfut None (c19_buf_after_move c19_cfg_fixed k (c19_xdt src))).
+
+Inductive c19_xcompl := C19_XCNull | C19_XCDone | C19_XCPending | C19_XCDangling.
+Definition c19_xstatus (f : c19_xfut) (p : list c19_xreq) : c19_xcompl :=
+  match c19_xrq f with
+  | None => C19_XCNull
+  | Some h => match c19_xfind h p with
+              | Some r => match c19_xs r with C19_XDone => C19_XCDone | C19_XPending => C19_XCPending end
+              | None => C19_XCDangling
+              end
+  end.
+
+Fixpoint c19_set (s : nat) (x : c19_xslot) (l : list c19_xslot) : list c19_xslot :=
+  match l, s with
+  | [], _ => []
+  | _ :: l', O => x :: l'
+  | y :: l', S s' => y :: c19_set s' x l'
+  end.
+
+Definition c19_slot_req (x : c19_xslot) : list nat :=
+  match x with C19_SObj f => match c19_xrq f with Some h => [h] | None => [] end | _ => [] end.
+(* the requests the live future objects stand for *)
+Definition c19_owned (l : list c19_xslot) : list nat := flat_map c19_slot_req l.
+Definition c19_handles (p : list c19_xreq) : list nat := map c19_xh p.
+
+(* sw: operator= variant, e: the slots are type-erased Dune::Future<T>, k: buffer kind *)
+Definition c19_xstep (sw e : bool) (k : c19_bkind) (o : c19_xop) (st : c19_xstate) : c19_xres * c19_xstate :=
+  let p := c19_xpool st in
+  let sl := c19_xslots st in
+  let n := length sl in
+  let upd p' sl' := C19_mkxstate p' sl' (c19_xnext st) (c19_xstore st) (c19_xunexp st) in
+  let member (s : nat) (g : c19_xfut -> c19_xres * c19_xstate) : c19_xres * c19_xstate :=
+    if s <? n then
+      match nth s sl C19_SNone with
+      | C19_SObj f => g f
+      | C19_SEmpty => (match o with C19_XValid _ => C19_XRBool false | _ => C19_XRInvalid end, st)
+      | C19_SNone => (C19_XRSkip, st)
+      end
+    else (C19_XRSkip, st) in
+  match o with
+  | C19_XSend v =>
+      match c19_xdeliver p with
+      | Some (b, p') => (C19_XRUnit, C19_mkxstate p' sl (c19_xnext st) ((b, v) :: c19_xstore st) (c19_xunexp st))
+      | None => (C19_XRUnit, C19_mkxstate p sl (c19_xnext st) (c19_xstore st) (c19_xunexp st ++ [v]))
+      end
+  | C19_XPost snd v s =>
+      if s <? n then
+        let h := c19_xnext st in
+        let '(rs, val, ux) :=
+          if snd then (C19_XDone, v, c19_xunexp st)      (* small message: buffered, complete at once *)
+          else match c19_xunexp st with m :: u => (C19_XDone, m, u) | [] => (C19_XPending, 0, []) end in
+        let p1 := p ++ [C19_mkxreq h rs snd] in
+        let tmp := C19_mkxfut (Some h) (Some h) in       (* the future returned by the call *)
+        let '(x', p2) :=
+          match nth s sl C19_SNone with
+          | C19_SObj f =>
+              if e then (C19_SObj tmp, c19_xdtor f p1)
+              else let (t', tmp') := c19_xassign sw k f tmp in (C19_SObj t', c19_xdtor tmp' p1)   (* ~temporary *)
+          | _ => (C19_SObj tmp, p1)
+          end in
+        (C19_XRUnit, C19_mkxstate p2 (c19_set s x' sl) (S h) ((h, val) :: c19_xstore st) ux)
+      else (C19_XRSkip, st)
+  | C19_XMoveCtor s t =>
+      if (s <? n) && (t <? n) then
+        match nth t sl C19_SNone, nth s sl C19_SNone with
+        | C19_SNone, C19_SObj fs =>
+            if e then (C19_XRUnit, upd p (c19_set s C19_SEmpty (c19_set t (C19_SObj fs) sl)))
+            else let (nw, old) := c19_xmovector k fs in
+                 (C19_XRUnit, upd p (c19_set s (C19_SObj old) (c19_set t (C19_SObj nw) sl)))
+        | C19_SNone, C19_SEmpty => (C19_XRUnit, upd p (c19_set t C19_SEmpty sl))
+        | _, _ => (C19_XRSkip, st)
+        end
+      else (C19_XRSkip, st)
+  | C19_XAssign s t =>
+      if (s <? n) && (t <? n) then
+        if s =? t then (C19_XRUnit, st)
+        else match nth s sl C19_SNone, nth t sl C19_SNone with
+             | C19_SNone, _ | _, C19_SNone => (C19_XRSkip, st)
+             | C19_SObj fs, C19_SObj ft =>
+                 if e then (C19_XRUnit, upd (c19_xdtor ft p) (c19_set s C19_SEmpty (c19_set t (C19_SObj fs) sl)))
+                 else let (t', s') := c19_xassign sw k ft fs in
+                      (C19_XRUnit, upd p (c19_set s (C19_SObj s') (c19_set t (C19_SObj t') sl)))
+             | xs, xt => (C19_XRUnit, upd (c19_xslot_dtor xt p) (c19_set s C19_SEmpty (c19_set t xs sl)))
+             end
+      else (C19_XRSkip, st)
+  | C19_XDestroy s =>
+      if s <? n then
+        match nth s sl C19_SNone with
+        | C19_SNone => (C19_XRSkip, st)
+        | x => (C19_XRUnit, upd (c19_xslot_dtor x p) (c19_set s C19_SNone sl))
+        end
+      else (C19_XRSkip, st)
+  | C19_XValid s => member s (fun f => (C19_XRBool (match c19_xdt f with Some _ => true | None => false end), st))
+  | C19_XReady s =>
+      member s (fun f =>
+        match c19_xstatus f p with
+        | C19_XCNull => (C19_XRBool true, st)
+        | C19_XCDone => (C19_XRBool true, upd (c19_xdtor f p) (c19_set s (C19_SObj (C19_mkxfut None (c19_xdt f))) sl))
+        | C19_XCPending => (C19_XRBool false, st)
+        | C19_XCDangling => (C19_XRDangling, st)
+        end)
+  | C19_XWait s =>
+      member s (fun f =>
+        match c19_xdt f with
+        | None => (C19_XRInvalid, st)
+        | Some _ =>
+            match c19_xstatus f p with
+            | C19_XCNull => (C19_XRUnit, st)
+            | C19_XCDone => (C19_XRUnit, upd (c19_xdtor f p) (c19_set s (C19_SObj (C19_mkxfut None (c19_xdt f))) sl))
+            | C19_XCPending => (C19_XRBlocks, st)
+            | C19_XCDangling => (C19_XRDangling, st)
+            end
+        end)
+  | C19_XGet s =>
+      member s (fun f =>
+        match c19_xdt f with
+        | None => (C19_XRInvalid, st)
+        | Some b =>
+            match c19_xstatus f p with
+            | C19_XCNull => (C19_XRData (c19_xlookup b (c19_xstore st)), upd p (c19_set s (C19_SObj (C19_mkxfut None None)) sl))
+            | C19_XCDone => (C19_XRData (c19_xlookup b (c19_xstore st)), upd (c19_xdtor f p) (c19_set s (C19_SObj (C19_mkxfut None None)) sl))
+            | C19_XCPending => (C19_XRBlocks, st)
+            | C19_XCDangling => (C19_XRDangling, st)
+            end
+        end)
+  end.
+
+Fixpoint c19_xrun (sw e : bool) (k : c19_bkind) (ops : list c19_xop) (st : c19_xstate) : c19_xstate :=
+  match ops with [] => st | o :: r => c19_xrun sw e k r (snd (c19_xstep sw e k o st)) end.
+(* per step: result, number of requests posted in MPI, number of requests the live futures stand for *)
+Fixpoint c19_xtrace (sw e : bool) (k : c19_bkind) (ops : list c19_xop) (st : c19_xstate) : list (c19_xres * (nat * nat)) :=
+  match ops with
+  | [] => []
+  | o :: r => let (res, st') := c19_xstep sw e k o st in
+              (res, (length (c19_xpool st'), length (c19_owned (c19_xslots st')))) :: c19_xtrace sw e k r st'
+  end.
+Definition c19_xinit (nslots : nat) : c19_xstate := C19_mkxstate [] (repeat C19_SNone nslots) 0 [] [].
+(* has a message been matched with a receive whose completion no future has observed yet?  (the harness lets the script
+   go on only with wait/get on that future: everything else would race with the arrival) *)
+Definition c19_xinflight (st : c19_xstate) : list nat :=
+  map c19_xh (filter (fun r => match c19_xs r with C19_XDone => negb (c19_xsnd r) | _ => false end) (c19_xpool st)).
